@@ -1,6 +1,6 @@
 // drv: correspondence driver. Runs the real relic code (built from /repo's working tree,
 // tag verif) on generated cases and prints one JSON object per case on stdout.
-package main
+package core
 
 import (
 	"bufio"
@@ -11,41 +11,41 @@ import (
 	"sort"
 )
 
-type rng struct{ s uint64 }
+type Rng struct{ S uint64 }
 
-func (r *rng) next() uint64 {
-	r.s += 0x9e3779b97f4a7c15
-	z := r.s
+func (r *Rng) Next() uint64 {
+	r.S += 0x9e3779b97f4a7c15
+	z := r.S
 	z = (z ^ (z >> 30)) * 0xbf58476d1ce4e5b9
 	z = (z ^ (z >> 27)) * 0x94d049bb133111eb
 	return z ^ (z >> 31)
 }
-func (r *rng) intn(n int) int {
+func (r *Rng) Intn(n int) int {
 	if n <= 0 {
 		return 0
 	}
-	return int(r.next() % uint64(n))
+	return int(r.Next() % uint64(n))
 }
-func (r *rng) bytes(n int) []byte {
+func (r *Rng) Bytes(n int) []byte {
 	b := make([]byte, n)
 	for i := range b {
-		b[i] = byte(r.next())
+		b[i] = byte(r.Next())
 	}
 	return b
 }
-func (r *rng) pick(xs ...int) int { return xs[r.intn(len(xs))] }
-func (r *rng) chance(pct int) bool { return r.intn(100) < pct }
+func (r *Rng) Pick(xs ...int) int  { return xs[r.Intn(len(xs))] }
+func (r *Rng) Chance(pct int) bool { return r.Intn(100) < pct }
 
-type ctx struct {
-	seed    uint64
-	tier    string
-	n       int
+type Ctx struct {
+	Seed    uint64
+	Tier    string
+	N       int
 	w       *bufio.Writer
-	scratch string
-	args    []string
+	Scratch string
+	Args    []string
 }
 
-func (c *ctx) emit(v interface{}) {
+func (c *Ctx) Emit(v interface{}) {
 	b, err := json.Marshal(v)
 	if err != nil {
 		panic(err)
@@ -54,9 +54,12 @@ func (c *ctx) emit(v interface{}) {
 	c.w.WriteByte('\n')
 }
 
-var commands = map[string]func(*ctx) error{}
+var Commands = map[string]func(*Ctx) error{}
 
-func main() {
+// Register adds a driver sub-command.
+func Register(name string, f func(*Ctx) error) { Commands[name] = f }
+
+func Main() {
 	seed := flag.Uint64("seed", 1, "PRNG seed")
 	tier := flag.String("tier", "quick", "quick|thorough")
 	n := flag.Int("n", 0, "case count override")
@@ -64,19 +67,19 @@ func main() {
 	flag.Parse()
 	if flag.NArg() < 1 {
 		var names []string
-		for k := range commands {
+		for k := range Commands {
 			names = append(names, k)
 		}
 		sort.Strings(names)
 		fmt.Fprintln(os.Stderr, "usage: drv [flags] <command> ; commands:", names)
 		os.Exit(2)
 	}
-	cmd, ok := commands[flag.Arg(0)]
+	cmd, ok := Commands[flag.Arg(0)]
 	if !ok {
 		fmt.Fprintln(os.Stderr, "unknown command", flag.Arg(0))
 		os.Exit(2)
 	}
-	c := &ctx{seed: *seed, tier: *tier, n: *n, w: bufio.NewWriterSize(os.Stdout, 1<<20), scratch: *scratch, args: flag.Args()[1:]}
+	c := &Ctx{Seed: *seed, Tier: *tier, N: *n, w: bufio.NewWriterSize(os.Stdout, 1<<20), Scratch: *scratch, Args: flag.Args()[1:]}
 	err := cmd(c)
 	c.w.Flush()
 	if err != nil {
